@@ -238,6 +238,7 @@ theorem LInv_closed : Closed LInv where
   siteCnt := fun s x h => ⟨TCInv_closed.siteCnt s x h.1, LA_of_lview h.2 rfl⟩
   emitInj := fun s a b c d h => ⟨TCInv_closed.emitInj s a b c d h.1, LA_of_lview h.2 rfl⟩
   clock := fun s n h => ⟨TCInv_closed.clock s n h.1, LA_of_lview h.2 rfl⟩
+  lastFlush := fun s n h => ⟨TCInv_closed.lastFlush s n h.1, LA_of_lview h.2 rfl⟩
   gone := fun s h => ⟨TCInv_closed.gone s h.1, LA_of_lview h.2 rfl⟩
   refresh := fun s h => ⟨TCInv_closed.refresh s h.1, LA_refresh h.2⟩
   allEmpty := fun s h => ⟨TCInv_closed.allEmpty s h.1, LA_allEmpty h.2⟩
